@@ -201,13 +201,19 @@ def gen_module(rng, uid, trigger=None):
     g = CdefGen(rng, uid)
     names = dict(types=g.types, consts=g.consts, funcs=[], vars=[])
     opts = {}
-    base = None
+    base = pre = None
     if rng.random() < 0.12 and trigger is None:
         # an included base ffi declaring a struct and a typedef
         b = CdefGen(rng, uid * 1000 + 999)
         b.add_struct()
         b.add_typedef()
         base = "\n".join(b.lines)
+        if rng.random() < 0.4:
+            # declarations made BEFORE ffi.include(): own anonymous members numbered before the included ones are known
+            pg = CdefGen(rng, uid * 1000 + 998)
+            pg.add_struct()
+            pre = "\n".join(pg.lines)
+            g.types += pg.types
         g.complete += [s for s in b.complete if s not in PRIMS]
         g.anyspec += [s for s in b.anyspec if s != "void"]
         g.types += b.types
@@ -251,7 +257,7 @@ def gen_module(rng, uid, trigger=None):
         n = "%sBIG" % g.p.upper()
         g.lines.append("#define %s %d" % (n, rng.choice([I64, I64 + 1, -I63 - 1, -I64, 3 * I64 + 7, -I64 - 9])))
         g.consts.append(n)
-    return dict(kind="module", cdef="\n".join(g.lines), base=base, names=names, opts=opts, trigger=trigger)
+    return dict(kind="module", cdef="\n".join(g.lines), base=base, pre=pre, names=names, opts=opts, trigger=trigger)
 
 
 def gen_codec(rng, n):
@@ -344,7 +350,7 @@ def finding_key(case, kind, info):
         if d["cat"] == "type" and "c1" in d:
             # `typedef struct TAG [{...}] NAME;`: the in-line ctype is called NAME, the out-of-line one `struct TAG`
             ren = {}
-            for m in re.finditer(r"typedef (struct|union) (\w+) (?:\{.*?\} )?(\w+)(?:, \*\w+)?;", case["cdef"] + "\n" + (case.get("base") or "")):
+            for m in re.finditer(r"typedef (struct|union) (\w+) (?:\{.*?\} )?(\w+)(?:, \*\w+)?;", case["cdef"] + "\n" + (case.get("base") or "") + "\n" + (case.get("pre") or "")):
                 ren[m.group(3)] = "%s %s" % (m.group(1), m.group(2))
 
             def norm(x):
@@ -358,6 +364,8 @@ def finding_key(case, kind, info):
             if ren and norm(d["c1"]) == d["c2"] and d["c1"] != d["c2"]:
                 return "typedef-tagged-struct-name"
             anon = re.compile(r"(?<!typedef )\b(?:struct|union) \{")
+            if case.get("base") and anon.search(case["base"]) and case.get("pre") and anon.search(case["pre"]):
+                return "include-after-cdef-anon-struct-name-clash"
             if case.get("base") and anon.search(case["base"]) and anon.search(case["cdef"]):
                 return "include-anon-struct-name-clash"
         if d["cat"] == "const":
